@@ -23,6 +23,8 @@ import (
 type Event struct {
 	Kind string `json:"k"`
 	N    int    `json:"n,omitempty"`
+	// Ms (data events): the read blocks this many milliseconds before it delivers (a serial port waiting for the bytes)
+	Ms int `json:"ms,omitempty"`
 }
 
 // ErrIO is the injected I/O failure.
@@ -150,6 +152,14 @@ func (s *Script) read(p []byte) (int, error) {
 	pop := func() { s.Events = s.Events[1:] }
 	switch ev.Kind {
 	case "data":
+		if ev.Ms > 0 {
+			d := time.Duration(ev.Ms) * time.Millisecond
+			ev.Ms = 0
+			s.mu.Unlock()
+			time.Sleep(d)
+			s.mu.Lock()
+			ev = &s.Events[0]
+		}
 		n := s.take(p, ev.N)
 		ev.N -= n
 		if ev.N <= 0 || n == 0 {
